@@ -17,6 +17,7 @@ stdin: JSON list of cases {op: ...}; stdout: JSON list of canonical observations
                                                           -> [code, violations, number of printed lines]
   rstreader {line}                                       restructuredtext._EpydocReader.report(system_message(line=...))
                                                           -> [ParseError._linenum, the lineno_offset reportErrors derives from it]
+  epytok   {text}                                         epytext._tokenize -> [line features, [[tag, startline]], [[error kind, line]]]
   descr    {own_path, mod_path}                           Documentable.description of an object whose module has another path
   rstconsol {doc}                                        restructuredtext.parse_docstring of a docstring with an unsplittable
                                                           consolidated field -> [ParseError._linenum, lineno_offset]
@@ -143,6 +144,75 @@ def run_case(c):
         reader.report(nodes.system_message('some message', **attrs))
         e = errors[0]
         return [e._linenum, (e.linenum() or 1) - 1]
+    if op == 'getlineno':
+        from docutils import nodes
+        from pydoctor.epydoc.docutils import get_lineno
+        ref = nodes.title_reference(c['ref_raw'] or '', 'x')
+        if c['node_line'] is not None:
+            ref.line = c['node_line']
+        cur = ref
+        for raw, line in c['ancestors']:           # innermost first: (rawsource or '', line or None)
+            par = nodes.paragraph(raw or '', '')
+            if line is not None:
+                par.line = line
+            par.append(cur)
+            cur = par
+        return get_lineno(ref)
+    if op == 'rstfields':
+        from pydoctor.epydoc.markup import restructuredtext as rst
+        errs = []
+        parsed = rst.parse_docstring(c['doc'], errs)
+        return [[f.tag(), f.arg(), f.lineno] for f in parsed.fields]
+    if op == 'oncesites':
+        import ast as _ast, pydoctor, os
+        root = os.path.dirname(pydoctor.__file__)
+        sites = []
+        for dp, dn, fn in os.walk(root):
+            if os.sep + 'test' in dp:
+                continue
+            for f in fn:
+                if not f.endswith('.py'):
+                    continue
+                tree = _ast.parse(open(os.path.join(dp, f), encoding='utf-8').read())
+                for node in _ast.walk(tree):
+                    if isinstance(node, _ast.Call) and isinstance(node.func, _ast.Attribute) and node.func.attr == 'msg':
+                        kw = {k.arg: k.value for k in node.keywords}
+                        if 'once' not in kw:
+                            continue
+                        once = kw['once']
+                        if not (isinstance(once, _ast.Constant) and once.value is False):
+                            sec = node.args[0] if node.args else kw.get('section')
+                            th = kw.get('thresh', node.args[2] if len(node.args) > 2 else None)
+                            def lit(x):
+                                if x is None:
+                                    return 0
+                                try:
+                                    return _ast.literal_eval(x)
+                                except Exception:
+                                    return '<not a literal>'
+                            sites.append([os.path.relpath(os.path.join(dp, f), root),
+                                          sec.value if isinstance(sec, _ast.Constant) else '<not a literal>', lit(th)])
+        return sorted(sites)
+    if op == 'epytok':
+        from pydoctor.epydoc.markup import epytext as E
+        text = c['text']
+        errs = []
+        toks = E._tokenize(text, errs)
+        tagc = {E.Token.PARA: 0, E.Token.HEADING: 1, E.Token.BULLET: 2, E.Token.LBLOCK: 3, E.Token.DTBLOCK: 4}
+        kinds = {'Possible mal-formatted field item.': 0, 'Improper doctest block indentation.': 2}
+        feats = []
+        for line in text.split('\n'):
+            indent = len(line) - len(line.lstrip())
+            blank = indent == len(line)
+            m = None if blank else E._BULLET_RE.match(line, indent)
+            st = line.strip()
+            rest = line[m.end():] if m else ''
+            feats.append([len(line), indent, m is not None, line[indent:indent + 4] == '>>> ', line.rstrip()[-2:] == '::',
+                          (not blank) and line[indent] == '@', len(st),
+                          len(st) > 0 and st[0] in E._HEADING_CHARS and all(ch == st[0] for ch in st),
+                          bool(rest.strip()), rest.strip()[-2:] == '::'])
+        return [feats, [[tagc[t.tag], t.startline] for t in toks],
+                [[kinds.get(e.descr(), 1 if e.descr().startswith('Possible heading typo') else 9), e._linenum] for e in errs]]
     if op == 'descr':
         system = mk_system(0)
         mod = model.Module(system, 'pkg', source_path=Path(c['mod_path']) if c['mod_path'] else None)
